@@ -52,6 +52,9 @@ pub enum Step {
     Do { s: usize, cmd: Cmd },
     /// a separate administrator changes bob's permission list mid-session
     SetPerms { perms: String },
+    /// the administrator snapshots database d and the snapshot is executed: keys (permission lists among them) that are
+    /// removed afterwards stay in memory as tombstones instead of disappearing
+    Snapshot,
 }
 
 #[derive(Clone, Debug, Serialize, Deserialize)]
@@ -114,6 +117,7 @@ pub fn case_strategy() -> impl Strategy<Value = Case> {
         let step = prop_oneof![
             12 => (0..n, cmd_strategy()).prop_map(|(s, cmd)| Step::Do { s, cmd }),
             1 => select(PERMS.to_vec()).prop_map(|p| Step::SetPerms { perms: p.to_string() }),
+            1 => Just(Step::Snapshot),
         ];
         prop::collection::vec(step, 1..9).prop_map(move |steps| Case { kinds: kinds.clone(), bob_perms: perms.to_string(), steps })
     })
@@ -262,6 +266,16 @@ struct Flags {
 
 fn step(w: &mut World, kinds: &[Kind], st: &Step, flags: &mut Flags) -> Option<(String, String)> {
     match st {
+        Step::Snapshot => {
+            let (r, _) = w.admin.send(&w.node, "snapshot false d");
+            w.node.pump();
+            w.node.snapshot_tick();
+            w.admin.drain();
+            if is_refusal(&r) {
+                return Some(("C09|admin-setup-refused".into(), format!("snapshot false d -> {}", resp_text(&r))));
+            }
+            None
+        }
         Step::SetPerms { perms } => {
             let line = if perms.is_empty() { "remove $$permission_$bob".to_string() } else { format!("set-permissions bob {}", perms) };
             let (r, _) = w.admin.send(&w.node, &line);
@@ -577,6 +591,26 @@ fn matrix() -> Vec<Case> {
         (Kind::Admin, vec![Cmd::AuthOk]),
     ];
     let mut out = vec![];
+    // a permission list that reached the disk and was revoked afterwards (its key is a tombstone in memory): every data
+    // command of a session opened with that user's token, before and after the revocation
+    for perms in ["r a*", "rwix *"] {
+        for c in cmds.iter().filter(|c| matches!(c, Cmd::Data { .. } | Cmd::Keys { .. } | Cmd::Resolve { .. })) {
+            for login_first in [true, false] {
+                let login = Step::Do { s: 0, cmd: Cmd::UseDb { db: "d".into(), right: true } };
+                let mut steps = vec![];
+                if login_first {
+                    steps.push(login.clone());
+                }
+                steps.push(Step::Snapshot);
+                steps.push(Step::SetPerms { perms: String::new() });
+                if !login_first {
+                    steps.push(login.clone());
+                }
+                steps.push(Step::Do { s: 0, cmd: c.clone() });
+                out.push(Case { kinds: vec![Kind::UserBob], bob_perms: perms.to_string(), steps });
+            }
+        }
+    }
     for (kind, pre) in prefixes {
         let perms_list: Vec<&str> = if kind == Kind::UserBob { PERMS.to_vec() } else { vec![""] };
         for p in perms_list {
